@@ -1,9 +1,11 @@
 import Posmint.Model.ChainSpec
+import Posmint.Lemmas.ChainFrame2
 /-!
 Preservation of the structural and token-accounting components of `Inv` by every operation.
 Helper lemmas (association lists, sums, bank algebra) live in this file too.
 -/
 namespace Posmint.Chain
+open F2
 
 
 section AList
@@ -1387,7 +1389,7 @@ def feeShare (s : State) (b : Addr) : Int :=
 
 /-- the state after the header update and the fee distribution -/
 def beginPre (s : State) (time : Int) : State :=
-  if s.height + 1 > 1 then rewardFromFees { s with height := s.height + 1, time := time }
+  if s.height + 1 > 1 then rewardFromFees2 (rewardFromFees { s with height := s.height + 1, time := time })
   else { s with height := s.height + 1, time := time }
 
 /-- the part of BeginBlock after the custom burns -/
@@ -1401,7 +1403,7 @@ theorem beginBlock_eq (s : State) (time : Int) (p : Addr) (votes : List Vote) (e
       ((mintAwards (beginPre s time)).bind burnValidators).bind fun s3 => beginPost s3 p votes evs := by
   unfold beginBlock beginPre beginPost
   simp only []
-  cases (mintAwards (if s.height + 1 > 1 then rewardFromFees { s with height := s.height + 1, time := time }
+  cases (mintAwards (if s.height + 1 > 1 then rewardFromFees2 (rewardFromFees { s with height := s.height + 1, time := time })
       else { s with height := s.height + 1, time := time })).bind burnValidators <;> rfl
 
 theorem beginPre_spec {s : State} (h : WF s) (time : Int) :
@@ -1413,8 +1415,10 @@ theorem beginPre_spec {s : State} (h : WF s) (time : Int) :
   have h0 : WF { s with height := s.height + 1, time := time } := h.with_height_time _ _
   split
   · obtain ⟨f, w, p, m, b⟩ := rewardFromFees_spec h0
-    refine ⟨h0.of_bankFrame f w, f.pool, f.vals, f.awards, p, m, ?_⟩
+    rw [rewardFromFees2_frame]
+    refine ⟨(wf_bal2 _).2 (h0.of_bankFrame f w), f.pool, f.vals, f.awards, p, m, ?_⟩
     intro x
+    show balOf (rewardFromFees { s with height := s.height + 1, time := time }) x = _
     rw [b]
     show balOf s x - (if x = s.feeAcc then balOf s s.feeAcc else 0) +
       (if (aget s.vals s.proposer).isSome then (if x = s.proposer then balOf s s.feeAcc else 0)
@@ -1797,7 +1801,7 @@ theorem anteOK_spec {s : State} {t : Tx} {sim : Bool} (h : anteOK s t sim = true
     0 ≤ t.feeEff ∧ (∃ k ∈ s.keys, k.2 = t.msg.signer s) ∧ t.feeEff ≤ balOf s (t.msg.signer s) := by
   unfold anteOK at h
   simp only [Bool.and_eq_true, decide_eq_true_eq] at h
-  obtain ⟨⟨⟨hfee, _⟩, _⟩, hm⟩ := h
+  obtain ⟨⟨⟨⟨⟨hfee, _⟩, _⟩, hm⟩, _⟩, _⟩ := h
   refine ⟨by omega, ?_⟩
   split at hm
   · simp at hm
@@ -2029,16 +2033,27 @@ theorem signer_congr {s s' : State} (hk : s'.keys = s.keys) (m : Msg) : m.signer
 theorem donation_congr {s s' : State} (hp : s'.pool = s.pool) (m : Msg) : donation s' m = donation s m := by
   cases m <;> simp [donation, hp]
 
-/-- the ante handler's fee deduction -/
+/-- a change of the second denomination's balances only: no effect on the accounting of the staking coin -/
+theorem txEff_bal2 {s : State} (h : Acct s) (b2 : List (Addr × Int)) : TxEff s { s with bal2 := b2 } 0 0 :=
+  (seff_of_wf h ((wf_bal2 b2).2 h.wf) rfl rfl rfl rfl).txEff (by frame_rfl) rfl
+
+/-- the ante handler's fee deduction (both denominations) -/
 theorem afterAnte_spec {s : State} (h : Acct s) {t : Tx} {sim : Bool} (ha : anteOK s t sim = true) :
-    TxEff s ((send s (t.msg.signer s) s.feeAcc t.feeEff).getD s) 0 0 := by
+    TxEff s ((send2 ((send s (t.msg.signer s) s.feeAcc t.feeEff).getD s) (t.msg.signer s) s.feeAcc t.fee2).getD
+      ((send s (t.msg.signer s) s.feeAcc t.feeEff).getD s)) 0 0 := by
   obtain ⟨hfee, hkey, hbal⟩ := anteOK_spec ha
-  cases hs : send s (t.msg.signer s) s.feeAcc t.feeEff with
-  | none => rw [send_eq_some hbal] at hs; simp at hs
-  | some sA =>
-    have := send_txEff h hfee (h.wf.key_not_mod hkey).1 hs
-    rw [if_neg (Ne.symm h.wf.modsDistinct.1)] at this
-    exact this
+  have e1 : TxEff s ((send s (t.msg.signer s) s.feeAcc t.feeEff).getD s) 0 0 := by
+    cases hs : send s (t.msg.signer s) s.feeAcc t.feeEff with
+    | none => rw [send_eq_some hbal] at hs; simp at hs
+    | some sA =>
+      have := send_txEff h hfee (h.wf.key_not_mod hkey).1 hs
+      rw [if_neg (Ne.symm h.wf.modsDistinct.1)] at this
+      exact this
+  rw [send2_getD_frame]
+  have := e1.trans (txEff_bal2 e1.acct
+    ((send2 ((send s (t.msg.signer s) s.feeAcc t.feeEff).getD s) (t.msg.signer s) s.feeAcc t.fee2).getD
+      ((send s (t.msg.signer s) s.feeAcc t.feeEff).getD s)).bal2)
+  simpa using this
 
 /-- `runTx`: consistent accounting; only a delivered, successful transaction may move the pool's
 surplus (by its donation) or the supply (by its DAO burn) -/
@@ -2064,12 +2079,12 @@ theorem runTx_spec {s : State} (h : Acct s) (mode : Mode) (t : Tx) :
   | simulate => simp; exact TxEff.refl h
   | deliver =>
     simp only []
-    cases hh : handle ((send s (t.msg.signer s) s.feeAcc t.feeEff).getD s) t.msg with
+    cases hh : handle ((send2 ((send s (t.msg.signer s) s.feeAcc t.feeEff).getD s) (t.msg.signer s) s.feeAcc t.fee2).getD ((send s (t.msg.signer s) s.feeAcc t.feeEff).getD s)) t.msg with
     | none => simp; exact eA
     | some s' =>
       obtain ⟨_, hkey, _⟩ := anteOK_spec hante
-      have hkey' : ∃ k ∈ ((send s (t.msg.signer s) s.feeAcc t.feeEff).getD s).keys,
-          k.2 = t.msg.signer ((send s (t.msg.signer s) s.feeAcc t.feeEff).getD s) := by
+      have hkey' : ∃ k ∈ ((send2 ((send s (t.msg.signer s) s.feeAcc t.feeEff).getD s) (t.msg.signer s) s.feeAcc t.fee2).getD ((send s (t.msg.signer s) s.feeAcc t.feeEff).getD s)).keys,
+          k.2 = t.msg.signer ((send2 ((send s (t.msg.signer s) s.feeAcc t.feeEff).getD s) (t.msg.signer s) s.feeAcc t.fee2).getD ((send s (t.msg.signer s) s.feeAcc t.feeEff).getD s)) := by
         rw [signer_congr eA.frame.keys, eA.frame.keys]; exact hkey
       obtain ⟨e2, hd⟩ := handle_spec eA.acct hkey' hbasic hh
       rw [donation_congr eA.frame.pool] at e2 hd
